@@ -7,20 +7,21 @@ from ..rules.siblings import Summary, diff
 from ..util import is_assign
 
 EXPLANATION = (
-    "Static decision of structural clauses of C03 by sibling implementation diff (R9): the page "
-    "loaders {load_dictionary_page_mmap, load_dictionary_page_fread} and {load_next_page_mmap, "
-    "load_next_page_fread} and the footer readers {read_footer, read_footer_mmap, "
-    "carquet_reader_open_buffer} are summarised by feature sets expressed in callee, header-member "
-    "and enum-constant names only (which parser/decoder they call, which header field feeds each "
-    "size-like argument, which guards on header fields lead to which error code, which header field "
-    "feeds each cursor field of the column reader); every difference outside a reasoned allow-list "
-    "(I/O calls of the fread variants, the zero-copy branch and file-extent checks of the mmap "
-    "variant, the leading-magic test missing from read_footer) is a violation. Plus: a "
-    "CARQUET_DATA_VIEW pointer is never passed to free (typestate on decoded_ownership along every "
-    "path to free(decoded_values)); the pointer published with the VIEW tag is pointer arithmetic on "
-    "file_reader->mmap_data on every definition (never a recycled heap buffer), which is what keeps "
-    "zero-copy data valid until close. Decides these clauses, not row alignment of batches nor "
-    "validity of zero-copy data until close.")
+    "Static decision of structural clauses of C03: (1) the mmap and the stdio variant of each page loader "
+    "({load_dictionary_page_mmap, load_dictionary_page_fread}, {load_next_page_mmap, "
+    "load_next_page_fread}) are executed abstractly on the same scenarios of valid pages (page type x CRC "
+    "present/verified/matching x codec x levels x value counts x physical type x position in the chunk x "
+    "alignment of the mapping; the header parser, positioned reads, CRC, codecs, allocator and page "
+    "decoders are hooked): both accept and refuse the same pages, an accepted page reaches the same "
+    "codec/decoder with the same bytes and sizes (the zero-copy view counts as decoding the stored bytes "
+    "in place), and both leave the same page geometry and counts in the column reader; (2) ownership of "
+    "what is published: in every scenario a pointer into the mapping is stored in decoded_values exactly "
+    "together with decoded_ownership = VIEW (so what is handed out as a view is the mapping itself, never "
+    "a recycled heap buffer), and a decoded_values buffer that is a view is never passed to free - by the "
+    "traces for the loaders and their helpers, by a typestate rule on decoded_ownership for the other "
+    "functions of src/reader; (3) the three footer readers reject short files, a wrong trailing magic and "
+    "an oversized footer length (their gating is decided under C18). Decides these clauses, not row "
+    "alignment of batches nor that nothing else invalidates zero-copy data before close.")
 
 PR = "src/reader/page_reader.c"
 FRD = "src/reader/file_reader.c"
